@@ -11,6 +11,7 @@ def runCase (c : Case) : List String :=
   match c.kind with
   | "wig" => wigCase c
   | "wigbytes" => wigBytesCase c
+  | "bedbytes" => bedBytesCase c
   | "bed" => bedCase c
   | "wigops" | "bedops" => opsCase c
   | "pyvalues" => pyValues c
